@@ -243,4 +243,18 @@ CHECKS = {
                  extra=FX_EXTRA, instrument=FX_INSTR),
         ],
     },
+    "C12": {
+        "level": "model_checking",
+        "engine": "E2+E1",
+        "technique": "exhaustive enumeration of (exit code x contents of the four output files) with real processes; stateless model checking (pre-emption-bounded) of two concurrent executions of one hook",
+        "level_text": "Part a: a real /bin/sh hook, executed by the real executor through the operator's taskHandler, dumps its cwd, the six environment variables, the state of the prepared files and the binding-context file, writes scripted contents and exits with a scripted code: exit in {0,1,2} x each of metrics / patch / admission / conversion file in {untouched, valid, truncated, wrong type} (768 cases, 1-3 contexts). Oracle: cwd = hook directory, context file = the task's contexts, output files exist and are empty, file names never reused, non-zero exit or any malformed output fails the task, valid outputs take effect (object in the fake cluster, metric in the hook registry, responses on the task), temp dir empty afterwards in every case, one execution per task. Part b: two executions of the same hook from two threads with scheduling points at every os.* call of hook.go and inside the stand-in process, all interleavings within 2 (quick) / 3 (thorough) pre-emptions, one variant with a failing first execution: each execution reads back its own response, results are right, temp dir empty at the end.",
+        "level_note": "Trusted: /bin/sh, the fake cluster, the stand-in process in part b. Failures to create temp files (disk full) are outside the property and not injected.",
+        "rule": "product enumeration (part a); DFS over interleavings within the bound (part b); non-trivial = any non-default file content or exit / a pre-emption; distinct = distinct (result, inputs) / results",
+        "parts": [
+            part("c12a", "pkg/shell-operator", "TestVerifC12a", ["zz_verif_c12_test.go", "zz_verif_fixture_test.go"], shards={"quick": 16, "thorough": 16},
+                 extra=FX_EXTRA, instrument=FX_INSTR),
+            part("c12b", "pkg/shell-operator", "TestVerifC12b", ["zz_verif_c12_test.go", "zz_verif_fixture_test.go"], shards={"quick": 8, "thorough": 16}, gomaxprocs=1,
+                 extra=FX_EXTRA, instrument={"files": FX_INSTR["files"] + [{"path": "pkg/hook/hook.go", "touchcalls": ["os.WriteFile", "os.Remove", "os.ReadFile"]}]}),
+        ],
+    },
 }
